@@ -28,7 +28,7 @@
    The full statement is false of the (faithful) model outside the hypothesis "updates name a tracked region":
    see C14_untracked_region_refuted with its witness history (a recorded known finding). *)
 From Coq Require Import NArith List Bool.
-From HV Require Import Obj.SceneGraph Obj.SceneGraphProofs Obj.SceneGraphTree Obj.SceneGraphKill.
+From HV Require Import Obj.SceneGraph Obj.SceneGraphProofs Obj.SceneGraphTree Obj.SceneGraphKill Obj.SceneGraphFut Obj.SceneGraphNoErr.
 Import ListNotations.
 Open Scope N_scope.
 
@@ -104,6 +104,128 @@ Theorem C14_clear_cancels : forall w r w',
   forall x, In x (w_futs w') -> f_region x = r -> f_state x <> Pending.
 Proof. exact clear_cancels. Qed.
 Print Assumptions C14_clear_cancels.
+
+(* ---- pending requests (futures): cancelled on kill / teardown, resolved on update, never reopened or lost ---- *)
+(* (SceneGraphFut.v)  fcan x y: y = x or x was pending and y is x cancelled;  fadv x y: same key and a done x stays x;
+   cans / advs: position-wise over the request log;  futs_ext fs fs': fs' = a ++ new with advs fs a;
+   np fs r l: no request for (r, l) is pending;  npk: same for one kind;  gone_np r w w': every object of w that is
+   gone in w' was in region r and no request for its local id is pending in w';  resolves w w' r l k f: no request
+   of kind k for (r, l) is pending in w' and each one that was pending in w is now Resolved f (same position). *)
+
+(* unconditionally (no invariant, no input assumption): along any history no request is dropped from the log, none
+   changes its key, and a request that is done (resolved or cancelled) is never touched again *)
+Theorem C14_requests_monotone : forall h w w', run w h = Some w' -> futs_ext (w_futs w) (w_futs w').
+Proof. exact run_futs_ext. Qed.
+Print Assumptions C14_requests_monotone.
+
+Theorem C14_request_done_stable : forall h w w' i x, run w h = Some w' -> nth_error (w_futs w) i = Some x ->
+  exists y, nth_error (w_futs w') i = Some y /\ fkey y = fkey x /\ (f_state x <> Pending -> y = x).
+Proof. intros h w w' i x R E. exact (futs_ext_nth _ _ i x (run_futs_ext h w w' R) E). Qed.
+Print Assumptions C14_request_done_stable.
+
+(* KillObject (r, l): requests are only cancelled (never resolved) by it; afterwards no request for (r, l) is pending,
+   and none for the local id of any object the cascade removed (descendants, orphans of an unknown id) *)
+Theorem C14_kill_cancels : forall w r l w', Idx w -> step w (EKill r l) = Some w' ->
+  cans (w_futs w) (w_futs w') /\ np (w_futs w') r l /\ gone_np r w w'.
+Proof. exact step_kill_cancels. Qed.
+Print Assumptions C14_kill_cancels.
+
+(* ObjectUpdate / ObjectUpdateCompressed for local id l in tracked region r (new object, known object, local-id change,
+   region move): every pending UPDATE request for (r, l) is resolved with that object *)
+Theorem C14_update_resolves : forall w cmp r l f p av v w', Idx w -> input_idx_ok w (EFull cmp r l f p av v) ->
+  step w (EFull cmp r l f p av v) = Some w' -> resolves w w' r l true f.
+Proof. exact step_full_resolves. Qed.
+Print Assumptions C14_update_resolves.
+
+(* ... and the object leaves no pending request behind under the (region, local id) it moved away from *)
+Theorem C14_moved_cancels : forall w cmp r l f p av v w' o, Idx w -> input_idx_ok w (EFull cmp r l f p av v) ->
+  get_obj w f = Some o -> (o_region o <> r \/ o_lid o <> l) ->
+  step w (EFull cmp r l f p av v) = Some w' -> np (w_futs w') (o_region o) (o_lid o).
+Proof. exact step_full_moved_cancels. Qed.
+Print Assumptions C14_moved_cancels.
+
+(* ObjectProperties that changes a property resolves the pending PROPERTIES requests of the object;
+   (as in the code, a reply that changes nothing runs no hooks and resolves nothing) *)
+Theorem C14_props_resolves : forall w f v w' o, Idx w -> get_obj w f = Some o -> o_name o <> v ->
+  step w (EProps f v) = Some w' -> resolves w w' (o_region o) (o_lid o) false f.
+Proof. exact step_props_resolves. Qed.
+Print Assumptions C14_props_resolves.
+
+Theorem C14_terse_resolves : forall w r l v w' o, Idx w -> region_state w r <> None -> lookup_local w r l = Some o ->
+  o_pos o <> v -> step w (ETerse r l v) = Some w' -> resolves w w' r l true (o_full o).
+Proof. exact step_terse_resolves. Qed.
+Print Assumptions C14_terse_resolves.
+
+(* over histories: a request made before a KillObject of its (r, l) is done for good after it, whatever follows
+   (cancelled if it was still pending); one pending when the object update arrives is resolved with that object for good *)
+Theorem C14_history_kill_cancelled : forall h1 r l h2 w1 w2 w3,
+  hist_ok input_idx_ok init h1 -> run init h1 = Some w1 -> step w1 (EKill r l) = Some w2 -> run w2 h2 = Some w3 ->
+  forall i x, nth_error (w_futs w1) i = Some x -> f_region x = r -> f_lid x = l ->
+  exists y, nth_error (w_futs w3) i = Some y /\ fkey y = fkey x /\ f_state y <> Pending /\
+            (f_state x = Pending -> f_state y = Cancelled).
+Proof. exact history_kill_cancelled. Qed.
+Print Assumptions C14_history_kill_cancelled.
+
+Theorem C14_history_update_resolved : forall h1 cmp r l f p av v h2 w1 w2 w3,
+  hist_ok input_idx_ok init h1 -> run init h1 = Some w1 -> input_idx_ok w1 (EFull cmp r l f p av v) ->
+  step w1 (EFull cmp r l f p av v) = Some w2 -> run w2 h2 = Some w3 ->
+  forall i x, nth_error (w_futs w1) i = Some x -> f_region x = r -> f_lid x = l -> f_kind x = true -> f_state x = Pending ->
+  nth_error (w_futs w3) i = Some (resolved x f).
+Proof. exact history_update_resolved. Qed.
+Print Assumptions C14_history_update_resolved.
+
+(* non-vacuity: requests for a tracked object (5) and for an unknown id (7) are cancelled by the kills;
+   requests pending when the object arrives are resolved with it, a later request stays pending *)
+Example C14_ex_requests_cancelled :
+  option_map (fun w => map f_state (w_futs w))
+    (run init [ETrack 1; EFull false 1 5 9 0 false 1; EReqObj 1 5; EReqProps 1 5; EReqObj 1 7; EKill 1 5; EKill 1 7])
+  = Some [Cancelled; Cancelled; Cancelled].
+Proof. vm_compute. reflexivity. Qed.
+
+Example C14_ex_requests_resolved :
+  option_map (fun w => map f_state (w_futs w))
+    (run init [ETrack 1; EReqObj 1 5; EReqProps 1 5; EFull false 1 5 9 0 false 1; EProps 9 3; EReqObj 1 5])
+  = Some [Resolved 9; Resolved 9; Pending].
+Proof. vm_compute. reflexivity. Qed.
+
+(* the hypotheses of C14_history_kill_cancelled / C14_history_update_resolved are satisfiable, with a pending request *)
+Example C14_ex_history_requests :
+  (exists w1 w2 w3 x, hist_ok input_idx_ok init [ETrack 1; EFull false 1 5 9 0 false 1; EReqObj 1 5] /\
+     run init [ETrack 1; EFull false 1 5 9 0 false 1; EReqObj 1 5] = Some w1 /\ step w1 (EKill 1 5) = Some w2 /\
+     run w2 [EFull false 1 5 9 0 false 2] = Some w3 /\ nth_error (w_futs w1) 0 = Some x /\ f_region x = 1 /\ f_lid x = 5 /\
+     f_state x = Pending) /\
+  (exists w1 w2 w3 x, hist_ok input_idx_ok init [ETrack 1; EReqObj 1 5] /\
+     run init [ETrack 1; EReqObj 1 5] = Some w1 /\ input_idx_ok w1 (EFull false 1 5 9 0 false 1) /\
+     step w1 (EFull false 1 5 9 0 false 1) = Some w2 /\ run w2 [EKill 1 5] = Some w3 /\
+     nth_error (w_futs w1) 0 = Some x /\ f_region x = 1 /\ f_lid x = 5 /\ f_kind x = true /\ f_state x = Pending).
+Proof.
+  split.
+  - do 4 eexists. split; [apply hist_okb_ok; vm_compute; reflexivity|]. vm_compute. repeat split.
+  - do 4 eexists. split; [apply hist_okb_ok; vm_compute; reflexivity|].
+    split; [vm_compute; reflexivity|]. split; [apply input_idx_okb_ok; vm_compute; reflexivity|]. vm_compute. repeat split.
+Qed.
+
+(* ---- no handler raises ---- *)
+(* acyclic w: there is a ranking of (region, local id) keys under which every tracked object ranks strictly below the
+   key named by its ParentID ("parent links form no cycle").  input_noerr_ok w e: input_tree_ok w e, and a KillObject /
+   teardown / track / request names a registered region (the message comes from a known circuit). *)
+Theorem C14_step_noerr_partial : forall w e, Idx w -> Tree w -> acyclic w -> input_noerr_ok w e -> step w e <> None.
+Proof. exact step_ok. Qed.
+Print Assumptions C14_step_noerr_partial.
+
+(* in particular the cascade of KillObject terminates within its fuel (number of tracked objects + 1), no assert of
+   untrack_object fires and no KeyError is raised, for any tracked or unknown local id *)
+Theorem C14_kill_noerr : forall w r l, Idx w -> Tree w -> acyclic w -> get_rs w r <> None -> step w (EKill r l) <> None.
+Proof. exact step_kill_ok. Qed.
+Print Assumptions C14_kill_noerr.
+
+(* hence over histories: if every event arrives in a state with acyclic parent links and satisfies the input
+   assumptions, no handler raises and the index / children / orphan clauses hold at the end.
+   (_partial: input_tree_ok carries "updates name a tracked region" and the local-id-change gap, see the header) *)
+Theorem C14_history_noerr_partial : forall h,
+  hist_ok input_full_ok init h -> exists w', run init h = Some w' /\ Idx w' /\ Tree w'.
+Proof. intros h H. exact (run_ok h init (conj init_Idx init_Tree) H). Qed.
+Print Assumptions C14_history_noerr_partial.
 
 (* ---- the full statement fails on the faithful model: witnesses (all replayed on the real code) ---- *)
 
@@ -198,3 +320,27 @@ Example C14_ex_history_tree_end :
   exists w o rs, run init ex_hist_tree = Some w /\ length (w_full w) = 2%nat /\ get_obj w 4 = Some o /\ o_av o = true /\
     o_parent o = 2 /\ o_children o = [(5, 3)] /\ get_rs w 1 = Some rs /\ aget 2 (r_orphans rs) = Some [4].
 Proof. vm_compute. do 3 eexists. repeat split. Qed.
+
+(* the same history satisfies the assumptions of C14_history_noerr_partial: a ranking witnessing acyclicity in every
+   state it passes through (ex_ht), registered regions for every kill / teardown / request *)
+Definition ex_ht (r l : N) : nat :=
+  match l with 1 => 10%nat | 2 | 6 => 8%nat | 4 => 6%nat | 3 | 5 => 4%nat | _ => 2%nat end.
+
+Example C14_ex_history_noerr :
+  hist_ok input_full_ok init ex_hist_tree /\ exists w, run init ex_hist_tree = Some w /\ Idx w /\ Tree w.
+Proof.
+  assert (H : hist_ok input_full_ok init ex_hist_tree) by (apply (hist_full_okb_ok ex_ht); vm_compute; reflexivity).
+  split; [exact H|]. exact (C14_history_noerr_partial _ H).
+Qed.
+
+(* a deep cascade: a chain 1 <- 2 <- 3 <- 4 <- 5 killed from the root, and an unknown id (9) whose orphan has a subtree *)
+Example C14_ex_kill_chain :
+  let h := [ETrack 1; EFull false 1 1 1 0 false 1; EFull false 1 2 2 1 false 1; EFull false 1 3 3 2 false 1;
+            EFull false 1 4 4 3 false 1; EFull false 1 5 5 4 false 1; EFull false 1 6 6 9 false 1; EFull false 1 7 7 6 false 1;
+            EKill 1 9; EKill 1 1] in
+  hist_ok input_full_ok init h /\ exists w, run init h = Some w /\ w_full w = [].
+Proof.
+  cbv zeta. split.
+  - apply (hist_full_okb_ok (fun r l => match l with 9 => 20%nat | _ => (20 - N.to_nat l)%nat end)). vm_compute. reflexivity.
+  - eexists. split; vm_compute; reflexivity.
+Qed.
